@@ -28,9 +28,9 @@ func corruptFrame(env *Env, b []byte) []byte {
 	out := append([]byte(nil), b...)
 	fields := bytes.Split(bytes.TrimSuffix(out, []byte{1}), []byte{1})
 	join := func(f [][]byte) []byte { return append(bytes.Join(f, []byte{1}), 1) }
-	kind := ch.Choose("corruption", 16)
+	kind := ch.Choose("corruption", 17)
 	env.Stat("fault_corrupt_" + []string{"bitflip", "delbyte", "insbyte", "dupbytes", "delfield", "dupfield", "swapfields", "emptyvalue",
-		"bodylen_huge", "bodylen_negative", "bodylen_offbyone", "truncate", "xmldata", "garbage_prefix", "bodylen_zero", "nonnumeric_tag"}[kind])
+		"bodylen_huge", "bodylen_negative", "bodylen_offbyone", "truncate", "xmldata", "garbage_prefix", "bodylen_zero", "nonnumeric_tag", "extreme_integer"}[kind])
 	switch kind {
 	case 0:
 		i := ch.Choose("pos", len(out))
@@ -75,7 +75,7 @@ func corruptFrame(env *Env, b []byte) []byte {
 				n, _ := strconv.Atoi(string(f[2:]))
 				switch kind {
 				case 8:
-					fields[i] = []byte("9=" + []string{"99999", "2147483648", "99999999999999999999"}[ch.Choose("huge", 3)])
+					fields[i] = []byte("9=" + []string{"99999", "2147483648", "99999999999999999999", "9223372036854775807", "9223372036854775000", "4611686018427387904"}[ch.Choose("huge", 6)])
 				case 9:
 					fields[i] = []byte("9=-" + strconv.Itoa(n))
 				case 10:
@@ -90,14 +90,24 @@ func corruptFrame(env *Env, b []byte) []byte {
 	case 11:
 		out = out[:1+ch.Choose("cut", len(out)-1)]
 	case 12:
-		// XMLData (212 length, 213 value) with a mismatching length, placed in the header
-		ln := []string{"5", "0", "-1", "500", "x"}[ch.Choose("xmllen", 5)]
-		ins := [][]byte{[]byte("212=" + ln), []byte("213=<a>\x01</a>")}
+		// XMLData (212 length, 213 value) with a mismatching length, placed in the header; some of the
+		// lengths make the data field end inside or right at the trailer
+		ins := [][]byte{[]byte("212=0"), []byte("213=<a>\x01</a>")}
 		at := 3
 		if at > len(fields) {
 			at = len(fields)
 		}
+		if ch.Chance("xmlattail", 1, 2) && len(fields) > 1 {
+			// directly in front of the trailer, value without SOH: the length decides whether the data
+			// field ends before, at, or inside the CheckSum field
+			at = len(fields) - 1
+			ins[1] = []byte("213=abc")
+		}
 		fields = append(fields[:at], append(ins, fields[at:]...)...)
+		tmp := join(fields)
+		rest := len(tmp) - (bytes.Index(tmp, []byte("213=")) + 4)
+		ln := []string{"5", "0", "-1", "500", "x", strconv.Itoa(rest), strconv.Itoa(rest - 1), strconv.Itoa(rest - 2), strconv.Itoa(rest - 4), strconv.Itoa(rest - 7), strconv.Itoa(rest - 8), strconv.Itoa(rest + 1)}[ch.Choose("xmllen", 12)]
+		fields[at] = []byte("212=" + ln)
 		out = join(fields)
 	case 13:
 		g := [][]byte{[]byte("garbage"), []byte("8=FIX"), []byte("\x01\x01\x0110="), []byte("8=\x019=\x01"), {0, 0xff, 0xfe}}[ch.Choose("garbage", 5)]
@@ -106,6 +116,39 @@ func corruptFrame(env *Env, b []byte) []byte {
 		i := ch.Choose("field", len(fields))
 		fields[i] = append([]byte("x"), fields[i]...)
 		out = join(fields)
+	case 16:
+		// an integer field (sequence numbers, ranges, intervals) with an extreme value
+		var nums []int
+		for i, f := range fields {
+			if eq := bytes.IndexByte(f, '='); eq > 0 && eq < len(f)-1 && !bytes.HasPrefix(f, []byte("8=")) && !bytes.HasPrefix(f, []byte("9=")) && !bytes.HasPrefix(f, []byte("10=")) {
+				digits := true
+				for _, c := range f[eq+1:] {
+					if c < '0' || c > '9' {
+						digits = false
+					}
+				}
+				if digits {
+					nums = append(nums, i)
+				}
+			}
+		}
+		if len(nums) > 0 {
+			i := nums[ch.Choose("numfield", len(nums))]
+			eq := bytes.IndexByte(fields[i], '=')
+			v := []string{"-9223372036854775807", "9223372036854775807", "-1", "0", "99999999999999999999999", "-2147483648", "4294967296"}[ch.Choose("extreme", 7)]
+			fields[i] = append(append([]byte(nil), fields[i][:eq+1]...), v...)
+			out = join(fields)
+			// keep the frame well-formed so that the value reaches the session logic
+			if i9 := bytes.Index(out, []byte("\x019=")); i9 >= 0 {
+				e9 := i9 + 3 + bytes.IndexByte(out[i9+3:], 1)
+				if i10 := bytes.LastIndex(out, []byte("\x0110=")); i10 > e9 {
+					out = append(append(append([]byte(nil), out[:i9+3]...), strconv.Itoa(i10-e9)...), out[e9:]...)
+				}
+			}
+			if i := bytes.LastIndex(out, []byte("\x0110=")); i >= 0 {
+				return wire.Seal(out[:i+1])
+			}
+		}
 	}
 	// half of the time make the checksum consistent again, so that the damage is not caught there
 	if ch.Chance("resum", 1, 2) {
